@@ -236,6 +236,15 @@ def gen_fmt(rng, tier):
                         for s0 in (1, b // 2, b - 1):
                             s, e = norm(sgn * s0, -k, b)
                             yield Case("f.fmt", ["disp", dec(p), "none", "-", farg(b, s, e, max(1, ndigits(s, b)), mode)], nontrivial=True)
+    # negative values that round to zero under {:w.p} (`signif_str` is EMPTY after the sign is cut: the width computation counts
+    #    no significand digit and p+1 leading zeros) and their neighbours that round to -0.0..01, with width, fill, alignment, zero flag
+    for b in BASES:
+        for mode in MODES:
+            for p in (0, 1, 3):
+                for k in (p + 1, p + 4):
+                    s, e = norm(-rng.choice([1, b // 2, b - 1]), -k, b)
+                    for w in (p + 2, p + 3, p + 7):
+                        yield Case("f.fmt", ["disp", dec(p), dec(w), rng.choice(FFLAGS), farg(b, s, e, max(1, ndigits(s, b)), mode)], nontrivial=True)
     # exponent-zero integers with a width (layout)
     for b in BASES:
         for v in [0, 1, b - 1, b + 1, 123, -45]:
@@ -413,6 +422,25 @@ def gen_prec(rng, tier):
         yield Case("f.with_precision", [farg(b, s, e, sp, rng.choice(MODES)), dec(p)], nontrivial=d > 1)
 
 
+def gen_inf(rng, tier):
+    """infinities through every formatting trait (Display, LowerExp, UpperExp, Debug/pretty Debug of FBig and Repr, Binary, Octal,
+    LowerHex, UpperHex where the base has them): the shortcut at the head of fmt_round / fmt_round_scientific / Debug prints
+    `inf` / `-inf` and ignores precision, width, fill, alignment, `+` and the zero flag"""
+    kinds = ["disp", "lexp", "uexp", "dbg", "dbga", "rdbg", "rdbga"]
+    for b in BASES:
+        ks = kinds + {2: ["bin", "lhex", "uhex"], 8: ["oct"], 16: ["lhex", "uhex"]}.get(b, [])
+        for k in ks:
+            for sg in "+-":
+                combos = [(None, None, "-")]
+                if k not in ("dbg", "dbga", "rdbg", "rdbga"):
+                    combos += [(2, None, "-"), (None, 8, "-"), (0, 9, "+"), (3, 10, "0"), (None, 10, "*^"), (1, 7, "<"), (None, 2, "+0")]
+                    if tier == "thorough":
+                        combos += [(rng.choice([None, 0, 1, 5]), rng.choice([None, 0, 3, 4, 5, 20]), fl) for fl in FFLAGS]
+                for (p, w, fl) in combos:
+                    yield Case("f.fmtinf", [k, "none" if p is None else dec(p), "none" if w is None else dec(w), fl, dec(b), sg,
+                                            rng.choice(MODES)], nontrivial=w is not None or p is not None)
+
+
 def generate(rng, tier):
     yield from gen_parse(rng, tier)
     yield from gen_fmt(rng, tier)
@@ -420,6 +448,7 @@ def generate(rng, tier):
     yield from gen_conv(rng, tier)
     yield from gen_prec(rng, tier)
     yield from gen_ieee(rng, tier)
+    yield from gen_inf(rng, tier)
 
 
 def _parse_farg(a):
@@ -521,10 +550,12 @@ RULE = ("parse: the documented grammar as a generator for bases {2,3,8,10,16,36}
         "width, `+`; half-way and all-nines significands aimed at the rounding and its carry. rt: print then parse. conversions: "
         "15 base pairs x 6 modes, explicit and derived precision, exponents within the exact-evaluation threshold (|e| <= 38) and "
         "any exponent for power-related bases, plus exactly representable values with |e| in 20..38 (18..38 thorough) for every non "
-        "power-related pair (must come back Exact); tiny non-zero values under {:.N} for all six modes and both signs; the ln/exp branch (|e| in 39..300) is judged by exact rational arithmetic in the "
+        "power-related pair (must come back Exact); tiny non-zero values under {:.N} for all six modes and both signs (and, negative ones rounding to -0, with width/fill/alignment/zero flag); the ln/exp branch (|e| in 39..300) is judged by exact rational arithmetic in the "
         "harness. with_precision (and with_base_and_precision on the same shapes): B^k+-small significands up to 60 words (B^k+small has k+1 digits), "
         "targets {0, 1, d-2, d-1, d, d+1}, source precision {unlimited, d, d+3}, all six modes, bases 2/3/10/16/36, both signs, plus random ones. "
-        "IEEE: special bit patterns and random f32/f64. Non-trivial := literal longer than 12 bytes / a precision or "
+        "IEEE: special bit patterns and random f32/f64. Infinities (+/-) through every formatting trait of every base "
+        "(Display, LowerExp, UpperExp, Debug and pretty Debug of FBig and Repr, Binary/Octal/LowerHex/UpperHex where defined) with and "
+        "without precision, width, fill, alignment, `+`, zero flag. Non-trivial := literal longer than 12 bytes / a precision or "
         "width option / non-zero exponent; distinct := distinct case lines.")
 REFINED = [
     "Context::convert_base, branch NewB = B^n (div_rem_euclid of the exponent, multiply, repr_round): exact value handed to repr_round "
@@ -558,6 +589,17 @@ REFINED = [
     "not depend on any of them (display_padding_keeps_digits, scientific_padding_keeps_digits); Display text without width or with the zero "
     "flag (any width, `+`) parses back to the same value / to the value rounded to the precision option "
     "(padded_print_parse_round_trip, padded_print_precision_parse)",
+    "the padding AMOUNTS of fmt_round and fmt_round_scientific: the `width` the code computes from digit count, exponent, precision, sign, "
+    "point and `0x` is exactly the length of what it prints (widthG_eq_length, sciWidthG_eq_length), hence the formatter's width is "
+    "honoured exactly — padding = width - natural length, none when long enough, placed by zero flag / alignment (centre: extra "
+    "character on the right) (display_width_exact, scientific_width_exact)",
+    "fmt_round_scientific (LowerExp, UpperExp, Binary, Octal, LowerHex, UpperHex, hexadecimal form 0xh.hhp±e of base 2): the rounding "
+    "step is the mode's rounding (ModeSpec) of signif / B^shift to P = p+1 significant digits (4p+4 bits for the hexadecimal form), "
+    "the carry branch (9.99 -> 10.0: divide by B, exponent + 1) keeps the value and at most P digits are printed "
+    "(scientific_rounding); the text is d0 [. d1..dn] marker E with exactly p fraction digits under a precision p, digits below "
+    "the shown radix, and (d0..dn)_radix * B^(E - n*k) = |rounded value| with the sign of the number (scientific_text_denotes)",
+    "infinities: the shortcut of every formatter prints inf / -inf and ignores every formatter option (fmtInfinite; driven against the real "
+    "code through all traits, FBig and Repr, op f.fmtinf)",
     "Binary / Octal / LowerHex / UpperHex of FBig (base 2: `b` and the hexadecimal form 0xh.hhp±e; base 8: `o`; base 16: `h`) and Debug of "
     "FBig and Repr (plain and pretty, incl. the DoubleEnd integer form `123..456 (digits: N, bits: M)`): mirrored (fmtSciG, debugFBig, "
     "debugRepr) and compared with the real code on every run, all fill/alignment/sign/zero flags",
@@ -565,15 +607,15 @@ REFINED = [
 FRONTIER = [
     "str::parse::<isize>() of the scale (parseIsize) is shared by model and grammar: its own behaviour (sign, ASCII digits, 64-bit range) "
     "is compared with the real code at run time only; the theorems hold for 64-bit isize",
-    "the padding AMOUNTS (width honoured exactly) of fmt_round / fmt_round_scientific and the digits of the scientific formats (rounding to "
-    "p+1 significant digits with carry, exponent adjustment) are mirrored and compared with the real code on every run; no theorem states "
-    "that the scientific text denotes the rounded value; the executable displaySpec (roundInt of the rational value) is compared at run "
-    "time, no theorem links it to ModeSpec",
+    "the executable displaySpec (roundInt of the rational value, compared with the model text at run time on every Display case without "
+    "width) is not linked by theorem to ModeSpec; the theorems about Display/scientific rounding are stated with ModeSpec directly. "
+    "Parsing the scientific text back (marker e/E/b/o/h/p instead of @) is not proved (only Display text is)",
     "Context::convert_base large-exponent branch (ln/exp at doubled precision): not mirrored; every case judged by exact rational arithmetic "
     "in the harness (digits, < 1 ulp, side, truthful flag, exact when representable) — the branch does NOT meet the contract (2 findings)",
     "Repr::new normalisation, repr_round, split_digits, round_fract, round_ratio: builder-float's models and theorems (C03/C10) are reused",
     "log2_bounds (f32 estimate used by with_base for non power-related bases): builder-nt's bit-exact Float32 replica (C12), no theorem",
-    "Debug / radix-trait formatting of infinities is not driven (the case protocol carries finite values only)",
+    "Debug of finite values (DoubleEnd integer form, pretty struct form) is mirrored and compared on every run; there is no theorem about it "
+    "(the property makes no claim about Debug text)",
 ]
 THEOREMS = ["Dashu.Props.C08." + t for t in [
     "convert_base_pow_up_branch", "convert_base_pow_up_contract", "ilog_exact_sound", "convert_base_pow_down_branch",
@@ -581,7 +623,8 @@ THEOREMS = ["Dashu.Props.C08." + t for t in [
     "from_ieee_exact", "parse_literal_exact", "print_parse_round_trip", "parse_eq_grammar", "grammar_digit_string", "parse_ok_denotes",
     "print_precision_text", "print_precision_rounding", "print_precision_parse", "with_precision_contract", "with_precision_unlimited",
     "display_padding_keeps_digits", "scientific_padding_keeps_digits", "padded_print_parse_round_trip", "padded_print_precision_parse",
-    "convert_base_long_dividend_contract", "convert_base_exact_paths_contract", "convert_base_result_digits", "with_base_precision_model"]]
+    "convert_base_long_dividend_contract", "convert_base_exact_paths_contract", "convert_base_result_digits", "with_base_precision_model",
+    "display_width_exact", "scientific_width_exact", "scientific_rounding", "scientific_text_denotes"]]
 EXPLANATION = ("Partial. Proved for all bases, modes, precisions and operands: the three exact-evaluation branches of base conversion "
                "round the exact value (contract of C03: exact iff representable, else < 1 ulp on the mode's side, truthful flag); "
                "the documented with_base precision; exactness of the f32/f64 import; the literal parser equals the documented grammar on every byte "
@@ -589,8 +632,10 @@ EXPLANATION = ("Partial. Proved for all bases, modes, precisions and operands: t
                "precision = digit count; Display then parse returns an equal number; Display with a precision prints exactly that many "
                "fractional digits of the value correctly rounded under the mode; with_precision meets the rounding contract; every path of "
                "convert_base that avoids ln/exp (incl. the division branch) rounds the exact value under the contract; padding (width, fill, "
-               "alignment, +, zero flag) never changes the digits and zero-padded Display text parses back to the same value. The digits of "
-               "the scientific formats (LowerExp/UpperExp/Binary/Octal/Hex) and Debug are mirrored models compared on every run with the "
+               "alignment, +, zero flag) never changes the digits, the width is honoured exactly (Display and scientific formats) and "
+               "zero-padded Display text parses back to the same value; the scientific formats (LowerExp/UpperExp/Binary/Octal/Hex incl. "
+               "the hexadecimal form) round to p+1 significant digits as the mode says and their text denotes that rounded value. "
+               "Debug and the printing of infinities are mirrored models compared on every run with the "
                "real code; the ln/exp conversion branch is judged per case by exact arithmetic.")
 ASSUMPTIONS = ["the f32 coarse test of round_fract decides like the exact comparison (C10)",
                "core::fmt delivers precision/width/flags as documented",
@@ -604,9 +649,11 @@ LEVEL_TEXT = ("PARTIAL. Machine-checked Lean 4 theorems, for every base >= 2, mo
               "followed by parsing returns an equal number; Display with precision p prints exactly p fractional digits of the value rounded "
               "as the mode specifies, and parsing that text returns exactly the rounded value; with_precision meets the rounding contract; "
               "base conversion through every branch except ln/exp — including the division branch for small negative exponents — meets it "
-              "too; formatter padding never alters the digits and zero-padded text parses back to the same value. "
-              "Not proved but executed against the real code on every run: the digits of LowerExp/UpperExp/Binary/Octal/LowerHex/UpperHex, "
-              "the exact padding amounts, Debug. The large-exponent branch (ln/exp) is checked per case with exact "
+              "too; formatter padding never alters the digits, pads to exactly the requested width (Display and all scientific formats), and "
+              "zero-padded text parses back to the same value; LowerExp/UpperExp/Binary/Octal/LowerHex/UpperHex (incl. the hexadecimal form "
+              "of base 2) round the significand to p+1 digits as the mode specifies — a carry into a new digit keeps the value — and the "
+              "printed digits, point and exponent denote exactly that rounded value, with exactly p fraction digits. "
+              "Not proved but executed against the real code on every run: Debug, the printing of infinities (all traits). The large-exponent branch (ln/exp) is checked per case with exact "
               "rational arithmetic; it violates the contract on representable inputs and at small precisions (recorded findings).")
 LEVEL_NOTE = ("Trusted: Lean kernel; axioms propext/Classical.choice/Quot.sound; the correspondence harness, its exact-arithmetic judge "
               "(dashu-ratio) and the generators (sampling); builder-float's rounding model/theorems (C03, C10) and builder-nt's log2 "
